@@ -18,6 +18,7 @@ import (
 
 	"github.com/opencontainers/go-digest"
 	"github.com/sirupsen/logrus"
+	"gopkg.in/yaml.v3"
 	"pgregory.net/rapid"
 
 	"github.com/regclient/regclient"
@@ -88,6 +89,55 @@ func dockerEntry(a *account, form string) map[string]string {
 	return map[string]string{"auth": b64(a.User + ":" + a.Pass)}
 }
 
+// hostViaText passes a host entry through the text form of a configuration file (JSON as regctl writes it, YAML as
+// regsync / regbot read it): the text is written here field by field, independently of config.Host's own marshalling,
+// and decoded with the repository's UnmarshalJSON / UnmarshalText, so that "configured for TLS" also means "configured
+// in a file".
+func hostViaText(ch config.Host, via string) (config.Host, error) {
+	tls := map[config.TLSConf]string{config.TLSEnabled: "enabled", config.TLSInsecure: "insecure", config.TLSDisabled: "disabled"}[ch.TLS]
+	if via == "json-title" && tls != "" {
+		tls = strings.ToUpper(tls[:1]) + tls[1:]
+	}
+	m := map[string]any{}
+	set := func(k string, v any, zero bool) {
+		if !zero {
+			m[k] = v
+		}
+	}
+	set("tls", tls, tls == "")
+	set("hostname", ch.Hostname, ch.Hostname == "")
+	set("user", ch.User, ch.User == "")
+	set("pass", ch.Pass, ch.Pass == "")
+	set("token", ch.Token, ch.Token == "")
+	set("credHelper", ch.CredHelper, ch.CredHelper == "")
+	set("pathPrefix", ch.PathPrefix, ch.PathPrefix == "")
+	set("mirrors", ch.Mirrors, len(ch.Mirrors) == 0)
+	set("priority", ch.Priority, ch.Priority == 0)
+	set("repoAuth", ch.RepoAuth, !ch.RepoAuth)
+	set("apiOpts", ch.APIOpts, len(ch.APIOpts) == 0)
+	var out config.Host
+	if via == "yaml" {
+		m["registry"] = ch.Name
+		b, err := yaml.Marshal(m)
+		if err != nil {
+			return out, err
+		}
+		if err := yaml.Unmarshal(b, &out); err != nil {
+			return out, fmt.Errorf("harness-config-yaml: %w (%s)", err, b)
+		}
+		return out, nil
+	}
+	b, err := json.Marshal(m)
+	if err != nil {
+		return out, err
+	}
+	if err := json.Unmarshal(b, &out); err != nil {
+		return out, fmt.Errorf("harness-config-json: %w (%s)", err, b)
+	}
+	out.Name = ch.Name // the JSON file provides the name as the object key
+	return out, nil
+}
+
 // buildClient configures a client exactly as the case says.
 func buildClient(c *Case, w *world, logw io.Writer) (*regclient.RegClient, func(), error) {
 	// the logger comes first so that the configuration loading below is logged too
@@ -146,6 +196,14 @@ func buildClient(c *Case, w *world, logw io.Writer) (*regclient.RegClient, func(
 				return nil, nil, err
 			}
 			def.CredHelper = helperPath
+		}
+		if c.CfgVia != "" {
+			d2, err := hostViaText(def, c.CfgVia)
+			if err != nil {
+				return nil, nil, err
+			}
+			d2.Name = ""
+			def = d2
 		}
 		conf.Opts = append(conf.Opts, regclient.WithConfigHostDefault(def))
 	}
@@ -237,6 +295,16 @@ func buildClient(c *Case, w *world, logw io.Writer) (*regclient.RegClient, func(
 	for n, d := range c.Decoys {
 		if w.validHost(d.Target) {
 			auths[c.decoyKey(d)] = dockerEntry(c.decoyAccount(n), d.Form)
+		}
+	}
+	if c.CfgVia != "" {
+		for i := range hosts {
+			h2, err := hostViaText(hosts[i], c.CfgVia)
+			if err != nil {
+				cleanup()
+				return nil, nil, err
+			}
+			hosts[i] = h2
 		}
 	}
 	if len(hosts) > 0 {
